@@ -33,7 +33,8 @@ func init() {
 			"corners position · ((p1−p0)×(p2−p0)) is a polynomial in Width, Height, Depth with positive coefficients only, so each supplied normal points to the outer side of every incident face. " +
 			"Parametrised solids (UVSphere, UVSphereUnwelded, Hemisphere.UV, Cylinder.ToMesh, Circle.ToMesh), with sin / cos as uninterpreted atoms and the single relation sin² + cos² = 1: NORMAL-RADIAL — every " +
 			"supplied normal is a positive multiple of the position of its own vertex (normal × position = 0, normal · position > 0) and every vertex written lies on the sphere of the given radius about the origin; " +
-			"NORMAL-CYL — side arrays completely filled, the horizontal part of each normal is a positive multiple of the horizontal part of the position stored at the same index, the vertical component has the sign of " +
+			"SPHERE-RADIUS — every vertex the sphere constructors write (UVSphere, UVSphereUnwelded, Hemisphere.UV; pole constants included, re-emitted copies followed back to the list they are read from) satisfies |p|² = radius² " +
+			"modulo sin² + cos² = 1, the hemisphere's base centre (0,0,0) being the one admitted exception; NORMAL-CYL — side arrays completely filled, the horizontal part of each normal is a positive multiple of the horizontal part of the position stored at the same index, the vertical component has the sign of " +
 			"the vertex's height, the un-rotated cap is moved along its own normal; CAP-NORMAL — the disk has one constant unit normal perpendicular to every stored position; SEAM — every loop that emits triangles " +
 			"along a ring uses base + i and base + (i+1) mod n with n = number of iterations = vertices per ring (%, helper, if-wrap or an explicit closing triangle), counter from 0, step 1, no early exit, bases whole " +
 			"rings after the first ring vertex: each ring vertex starts exactly one ring edge and ends exactly one; QUAD-DIMS — each of the six quads of Cube.UnweldedQuads is pushed out along one axis by half the box's extent there and its " +
@@ -128,7 +129,7 @@ func run(c *props.Ctx) {
 		if P.IsControl(f.Pos()) && f.Parent() == nil && strings.HasPrefix(f.Name(), "verifControl") {
 			r := &rec{c: c, ctl: true}
 			solidCtl := ""
-			for _, pre := range []struct{ pre, rule string }{{"verifControlRadial", "NORMAL-RADIAL"}, {"verifControlCyl", "NORMAL-CYL"}, {"verifControlCap", "CAP-NORMAL"}, {"verifControlSeam", "SEAM"}, {"verifControlQuads", "QUAD-DIMS"}, {"verifControlLatitude", "LATITUDE"}, {"verifControlFlip", "CAP-FLIP-AXIS"}} {
+			for _, pre := range []struct{ pre, rule string }{{"verifControlRadial", "NORMAL-RADIAL"}, {"verifControlCyl", "NORMAL-CYL"}, {"verifControlCap", "CAP-NORMAL"}, {"verifControlSeam", "SEAM"}, {"verifControlSphereRadius", "SPHERE-RADIUS"}, {"verifControlQuads", "QUAD-DIMS"}, {"verifControlLatitude", "LATITUDE"}, {"verifControlFlip", "CAP-FLIP-AXIS"}} {
 				if strings.HasPrefix(f.Name(), pre.pre) {
 					solidCtl = pre.rule
 				}
@@ -178,6 +179,7 @@ func run(c *props.Ctx) {
 	R.Floor("CAP-NORMAL", 1)
 	R.Floor("SEAM", 3)
 	R.Floor("QUAD-DIMS", 1)
+	R.Floor("SPHERE-RADIUS", 2)
 	R.Floor("LATITUDE", 4)
 	R.Floor("CAP-FLIP-AXIS", 1)
 }
@@ -188,9 +190,9 @@ var solidAnchors = []struct {
 	rules []string
 }{
 	{"Cube.UnweldedQuads", []string{"QUAD-DIMS"}},
-	{"UVSphere", []string{"NORMAL-RADIAL", "SEAM", "LATITUDE"}},
-	{"UVSphereUnwelded", []string{"NORMAL-RADIAL", "SEAM", "LATITUDE"}},
-	{"Hemisphere.UV", []string{"NORMAL-RADIAL", "SEAM", "LATITUDE"}},
+	{"UVSphere", []string{"NORMAL-RADIAL", "SPHERE-RADIUS", "SEAM", "LATITUDE"}},
+	{"UVSphereUnwelded", []string{"NORMAL-RADIAL", "SPHERE-RADIUS", "SEAM", "LATITUDE"}},
+	{"Hemisphere.UV", []string{"NORMAL-RADIAL", "SPHERE-RADIUS-BASE", "SEAM", "LATITUDE"}},
 	{"Cylinder.ToMesh", []string{"NORMAL-CYL", "LATITUDE-STRIP", "CAP-FLIP-AXIS"}},
 	{"Circle.ToMesh", []string{"CAP-NORMAL", "SEAM", "LATITUDE"}},
 }
@@ -199,6 +201,10 @@ func (k *checker) solidRule(r *rec, rule string, f *ssa.Function) {
 	switch rule {
 	case "NORMAL-RADIAL":
 		k.normalRadial(r, f)
+	case "SPHERE-RADIUS":
+		k.sphereRadius(r, f, false)
+	case "SPHERE-RADIUS-BASE":
+		k.sphereRadius(r, f, true)
 	case "NORMAL-CYL":
 		k.normalCylinder(r, f)
 	case "CAP-NORMAL":
